@@ -94,6 +94,9 @@ func runRace(cfg *hx.RunCfg, g *hx.Gen) ([]string, raceResult) {
 	}
 	// the reader's deadline was armed when it went back to ReadFromUDP after the reply (<= now)
 	time.Sleep(30500 * time.Millisecond)
+	w.mu.Lock()
+	posRelease := len(w.bk) // what arrives from now on comes from the held Write or from a socket created later
+	w.mu.Unlock()
 	close(release)
 	time.Sleep(300 * time.Millisecond)
 	lost := atBackend(d2) == 0
@@ -104,11 +107,15 @@ func runRace(cfg *hx.RunCfg, g *hx.Gen) ([]string, raceResult) {
 	ports := map[int]int{}
 	var obs []string
 	w.mu.Lock()
-	for _, r := range w.bk {
-		pi, ok := ports[r.addr.Port]
+	for pos, r := range w.bk {
+		key := r.addr.Port
+		if lost && pos >= posRelease {
+			key += 1000000 // the old socket is closed: an equal port number would be an OS reuse
+		}
+		pi, ok := ports[key]
 		if !ok {
 			pi = len(ports)
-			ports[r.addr.Port] = pi
+			ports[key] = pi
 		}
 		obs = append(obs, fmt.Sprintf("(%d, %s)", pi, hx.Hx(r.data)))
 	}
